@@ -241,6 +241,21 @@ class AbsInt:
             r = self.bin_itv(op, a, b)
             if op == 'Sub' and r[0] < 0 and d < 6 and self.prove_le(st, vn[3], vn[2], False, d + 6):
                 r = (0, max(r[1], 0))
+            if op == 'BitAnd':
+                # (x + m) & !m with the same m (round up to a multiple of m + 1): at least x
+                for p_, q_ in ((vn[2], vn[3]), (vn[3], vn[2])):
+                    if q_[0] == 'bin' and q_[1] == 'Sub' and q_[2] == ('c', (1 << 64) - 1) and p_[0] in ('bin', 'wrap', 'cast'):
+                        pp = p_
+                        k_ = 0
+                        while pp[0] in ('wrap', 'cast') and k_ < 3:
+                            pp = pp[1]
+                            k_ += 1
+                        if pp[0] == 'bin' and pp[1] == 'Add' and q_[3] in (pp[2], pp[3]):
+                            x_ = pp[3] if pp[2] == q_[3] else pp[2]
+                            ix = self.itvof(st, x_, d + 1)
+                            im = self.itvof(st, q_[3], d + 1)
+                            if ix is not None and im is not None and ix[0] >= 0 and im[0] >= 0 and ix[1] + im[1] < (1 << 64):
+                                r = (max(r[0], ix[0]), r[1])
             return r
         if h in ('wrap', 'cast'):
             i = self.itvof(st, vn[1], d + 1)
@@ -351,7 +366,14 @@ class AbsInt:
             return (la >> min(hb, 300), ha >> min(lb, 300))
         if op == 'BitAnd':
             if la >= 0 and lb >= 0:
-                return (0, min(ha, hb))
+                # x & !m  >=  x - m : a mask that is the 64-bit complement of a small value clears at most that much
+                M = (1 << 64) - 1
+                lo = 0
+                if lb >= (1 << 63) and hb <= M:
+                    lo = max(lo, la - (M - lb))
+                if la >= (1 << 63) and ha <= M:
+                    lo = max(lo, lb - (M - la))
+                return (lo, min(ha, hb))
             if la >= 0:
                 return (0, ha)
             if lb >= 0:
@@ -614,6 +636,11 @@ class AbsInt:
                 raise Bottom()
         if h == 'not':
             self.assume(st, vn[1], not truth, d + 1)
+            return
+        if h == 'and':
+            if truth:
+                self.assume(st, vn[1], True, d + 1)
+                self.assume(st, vn[2], True, d + 1)
             return
         if h == 'cmp':
             op, a, b = vn[1], vn[2], vn[3]
@@ -1711,6 +1738,7 @@ class AbsInt:
         for c in [c for c in acc.env if c[0][0] == 'L' and c[0][1] == fr]:
             del acc.env[c]
         st.env, st.itv, st.le = acc.env, acc.itv, acc.le
+        st.guard = acc.guard
         return rv
 
     # ------------------------------------------------------------------ models of library functions
@@ -1831,6 +1859,47 @@ class AbsInt:
             if a[0] == 'opt':
                 return ('opt', 'ControlFlow', a[2], a[3])
             return None
+        if name == 'map' and 'Option::<T>' in fn and len(args) == 2 and args[0][0] == 'opt' \
+                and args[1][0] == 'agg' and isinstance(args[1][1], tuple) and args[1][1][0] == 'closure':
+            # opt.map(|v| g(v)): the closure applied to the payload, same variant
+            cb_ = self.f.body(args[1][1][1])
+            if cb_ is not None and len(cb_.blocks) <= 12 and not self.in_stack(frame, cb_.path):
+                fr_ = (frame, cb_.path, bi, b.path)
+                st.env[(('L', fr_, 1), ())] = args[1]
+                st.env[(('L', fr_, 2), ())] = args[0][2]
+                self.cellty[(('L', fr_, 1), ())] = cb_.locals[1] if len(cb_.locals) > 1 else None
+                self.cellty[(('L', fr_, 2), ())] = cb_.locals[2] if len(cb_.locals) > 2 else None
+                self.subst[fr_] = self.subst.get(frame, [])
+                q0 = self.quiet
+                self.quiet = True          # a panic site of the closure is only reached for Some: not judged here
+                try:
+                    exits, _ss = self.run_body(cb_, fr_, st.copy(), 3)
+                finally:
+                    self.quiet = q0
+                outs_ = [self.read_cell(s_, (('L', fr_, 0), ()), cb_.locals[0]) for _e, s_ in sorted(exits.items())]
+                if len(outs_) == 1:
+                    return ('opt', 'Option', outs_[0], args[0][3])
+            return None
+        if name == 'filter' and 'Option::<T>' in fn and len(args) == 2 and args[0][0] == 'opt' \
+                and args[1][0] == 'agg' and isinstance(args[1][1], tuple) and args[1][1][0] == 'closure':
+            # opt.filter(|x| pred(x)): the payload stays, the result is Some iff it was Some and the predicate holds
+            cb_ = self.f.body(args[1][1][1])
+            if cb_ is not None and len(cb_.blocks) <= 12 and not self.in_stack(frame, cb_.path):
+                cell = (('T', frame, b.path, bi), ())
+                st.env[cell] = args[0][2]
+                fr_ = (frame, cb_.path, bi, b.path)
+                st.env[(('L', fr_, 1), ())] = args[1]
+                st.env[(('L', fr_, 2), ())] = ('ref', cell)
+                self.cellty[(('L', fr_, 1), ())] = cb_.locals[1] if len(cb_.locals) > 1 else None
+                self.cellty[(('L', fr_, 2), ())] = cb_.locals[2] if len(cb_.locals) > 2 else None
+                self.subst[fr_] = self.subst.get(frame, []) if isinstance(getattr(self, 'subst', None), dict) else []
+                exits, _ss = self.run_body(cb_, fr_, st.copy(), 3)
+                preds = []
+                for _e, s_ in sorted(exits.items()):
+                    preds.append(self.read_cell(s_, (('L', fr_, 0), ()), cb_.locals[0]))
+                if len(preds) == 1 and preds[0][0] in ('cmp', 'not', 'c', 'inrange'):
+                    return ('opt', 'Option', args[0][2], ('and', args[0][3], preds[0]))
+            return ('opt', 'Option', args[0][2], ('and', args[0][3], ('u', ('filter', frame, b.path, bi), 'bool')))
         if fn.endswith('ops::FromResidual::from_residual'):
             # the residual of `?`: the failing variant of the destination (None / Err(..))
             k_ = self.kind_of_tid(dtid) if dtid is not None else None
